@@ -29,16 +29,16 @@ def check(ctx):
         ctx.count("states", len(items))
         run_items(ctx, "n=%d: measured groups (%s) x signs x presentations x point-mass outcomes" % (n, "all" if step == 1 else "every 6th"), items)
     for n in (5, 6):
-        confs = M.configs_for(n)
         items = []
-        for k, gid in enumerate(conform.rep_gids(n)[::(2 if n == 5 else (16 if quick else 3))]):
-            gens = M.run(M.local_layer_gates([(k + 2 * q) % 6 for q in range(n)]), n, B.graph_states_gens(n, gid))
-            gens = [M.herm(p[0], p[1], (k >> (j % 3)) & 1) for j, p in enumerate(gens)]
-            for conn in (confs if not quick else [confs[k % len(confs)]]):
-                for b in ([0, (1 << n) - 1, 1 << (k % n), (k * 37 + 5) % (1 << n)] if quick else range(0, 1 << n, 3)):
+        for conn in M.configs_for(n):
+            for k, gid in enumerate(conform.table_graphs(n, conn)):
+                gens = M.run(M.local_layer_gates([(k + 2 * q) % 6 for q in range(n)]), n, B.graph_states_gens(n, gid))
+                gens = [M.herm(p[0], p[1], (k >> (j % 3)) & 1) for j, p in enumerate(gens)]
+                outs = [(k * 37 + 5) % (1 << n), (1 << n) - 1, 1 << (k % n)] if quick else list(range(k % 3, 1 << n, 3))
+                for b in outs:
                     items.append(("stabilizer", n, conn, n, None, [], ("point", b), False, M.gens_str(gens, n)))
         ctx.count("states", len(items))
-        run_items(ctx, "n=%d: rotated table graph states as measured groups x point-mass outcomes" % n, items)
+        run_items(ctx, "n=%d: every (configuration, class): rotated table graph state as measured group x point-mass outcomes" % n, items)
     # (C) end to end: every measured group x every signed state
     g2 = B.sg(2)
     items = []
